@@ -116,7 +116,7 @@ func soloInterference(cx *CheckCtx, runs []*CaseRun, crowd func(i int) []RenderO
 	wg.Wait()
 	for k, i := range sample {
 		c := runs[i].Case
-		if hasMultiDictQual(c) || hasEqualKeyTexts(c) {
+		if dictRegistersInMapOrder(c) || hasEqualKeyTexts(c) {
 			continue // known finding D7: output varies from build to build on its own
 		}
 		seed := uint64(i)*7919 + 1
